@@ -7,7 +7,10 @@ source text by source_variant()) and the Arnoldi/Lanczos relation + Hessenberg s
 theorem krylov_polynomial_exact (A^k v_0 = V_m T_m^k e_1).  Tie: hand-written model, checked on every run by
   (1) an exact correspondence of the control outcome: the real function is run with a logging `op`
       and a logging torch.linalg.matrix_exp, the oracle values n2_j / err1_j / err2_j are recomputed
-      from the logs with the same torch calls and fed to the model;
+      from the logs with the same torch calls and fed to the model; the harness also logs, per iteration, on which
+      Lanczos vector op was called (caller frame: j, len(lanczos_vectors), call site) and which product the
+      iteration orthogonalised; this trace is compared exactly with the model's cache machine (ktrace; theorem
+      C07_cached_product_is_fresh); a product computed from another vector is VIOLATION stale-operator-product;
   (2) a numeric (tol) correspondence of the full model at complex binary64 for dimension <= 6.
 Validated only (falsifier, NOT a theorem): "error <= 10 * tolerance * |v|" against scipy.linalg.expm.
 """
@@ -92,6 +95,21 @@ def build_case(case):
         return A, v
     r = _np_rng(case["seed"])
     d, cls, spec = case["dim"], case["cls"], case["spectrum"]
+    if case["start"] == "weakcoupled":
+        # v = e_0 almost in the kernel: H e_0 = eps e_1, the rest of H is O(1); G (PSD) does not touch e_0
+        m = r.randn(d, d) + 1j * r.randn(d, d)
+        h = (m + m.conj().T) / (2 * math.sqrt(max(d, 1)))
+        h[0, :] = 0
+        h[:, 0] = 0
+        if d > 1:
+            h[0, 1] = h[1, 0] = case["eps_null"]
+        if cls == "HG":
+            L = (r.randn(d, d) + 1j * r.randn(d, d)) / math.sqrt(d)
+            L[:, 0] = 0
+            h = h - 0.5j * (L.conj().T @ L)
+        v = np.zeros(d, dtype=complex)
+        v[0] = case["vscale"]
+        return -1j * case["dt"] * h, v
     if cls == "L":
         dd = case["d_local"]
         h, lam, q = _hermitian(r, dd, spec)
@@ -197,6 +215,20 @@ def gen_case(rng, small=False):
     return c
 
 
+def gen_weak(rng):
+    """Weakly coupled start vector (register in |0..0> at the start of an amplitude ramp): the first estimate is
+    tiny, the confirmation with |op(v_1)| rejects it, the iteration has to go on."""
+    eps = rng.choice([1e-3, 1e-4, 1e-5, 1e-6, 1e-7])
+    tol = max(1e-12, eps * 10.0 ** (-rng.choice([1, 2, 3, 3, 4, 5])))
+    cls = rng.choice(["H", "H", "HG"])
+    dt = rng.choice([0.1, 0.5, 0.5, 1.0, 3.0])
+    return {"kind": "operator-weak", "cls": cls, "spectrum": "weakcoupled", "seed": rng.getrandbits(31), "block": 0,
+            "start": "weakcoupled", "eps_null": eps, "dt": dt, "n_eig": 0, "n_jump": 0, "sparse_jump": False,
+            "gamma": 1.0, "vscale": rng.choice([1.0, 1.0, 3.7]), "dim": rng.choice([3, 4, 6, 8, 32, 64, 128]),
+            "anorm": 2.0 * dt, "exp_tol": tol, "norm_tol": rng.choice([tol, 1e-12]),
+            "max_dim": rng.choice([4, 6, 20, 100, 100]), "herm_flag": cls == "H" and rng.random() < 0.7}
+
+
 def gen_malformed(rng):
     c = gen_case(rng, small=True)
     how = rng.choice(["maxdim0", "zero_v", "nan_op", "tol0", "negtol", "inftol", "zero_op"])
@@ -266,6 +298,21 @@ def source_variant():
                          f"(model has SLACK={MODEL_SLACK})")
 
 
+def _confirm_call_lines():
+    """Line numbers of the `op(...)` calls inside an `if ... exp_tolerance` block of krylov_exp_impl."""
+    import ast
+    src = (common.REPO / "emu_base/math/krylov_exp.py").read_text()
+    fn = next((n for n in ast.parse(src).body if isinstance(n, ast.FunctionDef) and n.name == "krylov_exp_impl"), None)
+    lines = set()
+    if fn is not None:
+        for node in ast.walk(fn):
+            if isinstance(node, ast.If) and "exp_tolerance" in ast.unparse(node.test):
+                for sub in ast.walk(node):
+                    if isinstance(sub, ast.Call) and ast.unparse(sub.func) == "op":
+                        lines.add(sub.lineno)
+    return lines
+
+
 # ---------------------------------------------------------------------------------------------
 # running the real code with interposition (module-level names only, restored afterwards)
 class _Proxy:
@@ -290,12 +337,23 @@ def real_run(case, A=None, v=None):
         A, v = build_case(case)
     At = torch.tensor(A, dtype=torch.complex128)
     vt = torch.tensor(v, dtype=torch.complex128)
-    log = {"op_out": [], "op_in": [], "mexp": [], "T": None}
+    log = {"op_out": [], "op_in": [], "mexp": [], "T": None, "calls": [], "events": []}
+    confirm_lines = _confirm_call_lines()
 
     def op(x):
+        import sys
+        fr = sys._getframe(1)
+        loc = fr.f_locals if fr.f_code.co_name == "krylov_exp_impl" else {}
+        lv = loc.get("lanczos_vectors")
+        call = {"j": loc.get("j"), "vec": (len(lv) - 1) if lv is not None else None,
+                "newest": bool(lv is not None and x is lv[-1]),
+                "kind": "confirm" if fr.f_lineno in confirm_lines else "top"}
         log["op_in"].append(x.clone())
         y = At @ x
         log["op_out"].append(y.clone())
+        call["out"] = log["op_out"][-1]
+        log["calls"].append(call)
+        log["events"].append(("op", call))
         return y
 
     def matrix_exp(M):
@@ -303,6 +361,7 @@ def real_run(case, A=None, v=None):
         base = M._base if M._base is not None else M
         log["T"] = base            # the one T tensor of the run (views share it)
         log["mexp"].append((int(M.shape[0]), out.clone()))
+        log["events"].append(("mexp", int(M.shape[0])))
         return out
 
     proxy = _Proxy(torch, linalg=_Proxy(torch.linalg, matrix_exp=matrix_exp))
@@ -341,28 +400,48 @@ def real_run(case, A=None, v=None):
             out["pub_exc"] = type(ex).__name__
     finally:
         ke.krylov_exp_impl = saved_impl
+    # observed trace: per executed iteration (one matrix_exp call each) which operator product it used
+    # (index of the Lanczos vector op was applied to) and whether the confirmation product was computed
+    trace, last_confirm, it = [], None, 0
+    pending_top = None
+    for kind, ev in log["events"]:
+        if kind == "op":
+            if ev["kind"] == "top":
+                pending_top = ev
+            else:
+                last_confirm = ev
+                if trace:
+                    trace[-1]["confirm"] = True
+                    trace[-1]["confirm_call"] = ev
+        else:
+            src = pending_top if pending_top is not None else last_confirm
+            trace.append({"j": it, "used": src["vec"] if src is not None else None, "fresh": pending_top is not None,
+                          "src": src, "confirm": False, "confirm_call": None})
+            pending_top = None
+            it += 1
+    out["trace"] = [(t["j"], (t["used"], t["confirm"])) for t in trace]
+    out["bad_call"] = next((c for c in log["calls"] if not c["newest"]), None)
     # oracle values recomputed from the logs with the same torch calls as the source
     T = log["T"]
-    n_it = len(log["op_out"])
-    out["n_op_calls"] = n_it
+    out["n_op_calls"] = len(log["op_out"])
     n2s, e1s, e2s, e2cs = [], [], [], []
     ext = [(sz, e) for (sz, e) in log["mexp"]]
-    n_it = out["iters"] if out["exc"] is None else n_it   # the k-th op call is op(v_k) in both variants
+    n_it = out["iters"] if out["exc"] is None else len(trace)
     for j in range(n_it):
-        n = log["op_out"][j].norm()
+        t = trace[j] if j < len(trace) else None
+        n = t["src"]["out"].norm() if t is not None and t["src"] is not None else None
         n2s.append(float(T[j + 1, j].real) if T is not None else float("nan"))
         # the extended-T exponential of iteration j is the (j)-th logged call of size j + 3, if made
         e = next((x for (sz, x) in ext[j:j + 1] if sz == j + 3), None)
-        if e is None:
+        if e is None or n is None:
             e1s.append(float("nan"))
             e2s.append(float("nan"))
             e2cs.append(float("nan"))
         else:
             e1s.append(float(abs(e[j + 1, 0])))
             e2s.append(float(abs(e[j + 2, 0] * n)))
-            # fixed variant: the confirmation applied op to v_{j+1}: that is op call number j + 1
-            nxt = log["op_out"][j + 1].norm() if j + 1 < len(log["op_out"]) else None
-            e2cs.append(float(abs(e[j + 2, 0] * nxt)) if nxt is not None else float("nan"))
+            cc = t["confirm_call"]
+            e2cs.append(float(abs(e[j + 2, 0] * cc["out"].norm())) if cc is not None else float("nan"))
     out.update(n2s=n2s, e1s=e1s, e2s=e2s, e2cs=e2cs, log=log, A=A, v=v)
     return out
 
@@ -373,7 +452,9 @@ def control_expr(case, run, fixed):
     args = (f"float_arith {fixed} (stream nan {lst(run['n2s'])}) (stream nan {lst(run['e1s'])}) "
             f"(stream nan {lst(run['e2s'])}) (stream nan {lst(run['e2cs'])}) "
             f"{fl(case['norm_tol'])} {fl(case['exp_tol'])} {case['max_dim']}")
-    return f"(outcome (kexp_impl {args}), outcome (kexp_public {args}))"
+    targs = args.rsplit(" ", 1)[0]
+    return (f"(outcome (kexp_impl {args}), outcome (kexp_public {args}), "
+            f"ktrace {targs} {case['max_dim']} 0 None)")
 
 
 def impl_outcome(run):
@@ -432,6 +513,13 @@ def property_check(ctx, case, run, stats):
         ctx.violation(f"krylov_exp_impl raised {run['exc']} on a well-formed input",
                       {"case": case, "finding_key": "impl-raises-" + run["exc"]})
         return "raised"
+    stale = next(((j, used) for j, (used, _c) in run.get("trace", []) if used != j), None)
+    if stale is not None or run.get("bad_call") is not None:
+        what = (f"iteration {stale[0]} orthogonalised an operator product computed from Lanczos vector {stale[1]} "
+                f"(stale cached product w_next)") if stale is not None else \
+            f"op was applied to a tensor that is not the newest Lanczos vector (iteration {run['bad_call']['j']})"
+        ctx.violation(what + f"; outcome converged={run['converged']} happy={run['happy']} iters={run['iters']}",
+                      {"case": case, "trace": run.get("trace"), "finding_key": "stale-operator-product"})
     if run["happy"] and not run["converged"]:
         ctx.violation("happy_breakdown without converged", {"case": case, "finding_key": "happy-not-converged"})
     if not run["converged"]:
@@ -560,6 +648,7 @@ def run(ctx):
     for c in small:
         c["kind"] = "operator-small"
     cases += small
+    cases += [gen_weak(ctx.rng) for _ in range(ctx.n(45, 500))]
     cases += [gen_malformed(ctx.rng) for _ in range(n_mal)]
 
     runs, stats, hist = [], {}, {}
@@ -569,6 +658,12 @@ def run(ctx):
         verdict = property_check(ctx, c, r, stats)
         key = f"{c['kind'].split(':')[0]}/{c['cls']}/{verdict}"
         hist[key] = hist.get(key, 0) + 1
+        tr = r.get("trace", [])
+        failed = [j for j, (_u, cf) in tr if cf and j < len(tr) - 1]
+        skipped = [j for j in failed if j + 2 < len(tr) and not tr[j + 1][1][1]]
+        stats["confirm_called"] = stats.get("confirm_called", 0) + (1 if any(cf for _j, (_u, cf) in tr) else 0)
+        stats["confirm_failed"] = stats.get("confirm_failed", 0) + (1 if failed else 0)
+        stats["confirm_failed_then_skipped"] = stats.get("confirm_failed_then_skipped", 0) + (1 if skipped else 0)
     ctx.extra["input_distribution"] = dict(sorted(hist.items()))
     ctx.extra["falsifier"] = {
         "acceptance_rule": ("converged => |result - scipy.linalg.expm(A) v|_2 <= 10*tol*|v| + "
@@ -576,6 +671,9 @@ def run(ctx):
                             f"breakdown); within {REL_INDET} relative of the threshold = indeterminate; "
                             "not converged => krylov_exp raises RecursionError"),
         "max_error_over_tol_times_norm": stats.get("max_ratio", 0.0),
+        "cases_with_confirmation_computed": stats.get("confirm_called", 0),
+        "cases_with_confirmation_failed": stats.get("confirm_failed", 0),
+        "cases_with_confirmation_failed_then_next_iteration_skipping_it": stats.get("confirm_failed_then_skipped", 0),
         "indeterminate": stats.get("indeterminate", 0),
         "dims": sorted({c["dim"] for c in cases})[:8] + ["...", max(c["dim"] for c in cases)],
     }
@@ -590,8 +688,13 @@ def run(ctx):
             outs = ev.run()
             for c, r, o in zip(cases, runs, outs):
                 m = parse(o)     # Coq prints ((a, b), c) as (a, b, c)
+                mtrace = [tuple(x) if not isinstance(x, tuple) else x for x in m[3]]
                 m = ((m[0], m[1]), m[2])
                 i = impl_outcome(r)
+                if r["exc"] is None and mtrace != r["trace"] and corr_ok:
+                    corr_ok = False
+                    detail = f"case={c} operator-product trace impl={r['trace']} model={mtrace}"
+                    ctx.extra["first_disagreement"] = {"case": c, "impl_trace": str(r["trace"]), "model_trace": str(mtrace)}
                 nontrivial = r["n_op_calls"] >= 2
                 ctx.count_case({k: c[k] for k in ("kind", "cls", "spectrum", "dim", "anorm", "exp_tol",
                                                   "norm_tol", "max_dim", "herm_flag", "seed")} |
@@ -606,7 +709,7 @@ def run(ctx):
         except (common.CoqEvalError, ValueError) as ex:
             corr_ok, detail = False, str(ex)
     ctx.obligation("correspondence:Model.KrylovExp.Control==krylov_exp_impl/krylov_exp "
-                   "(outcome tuple exact, oracle values recomputed from logged torch calls)",
+                   "(outcome tuple and per-iteration operator-product/cache trace exact, oracle values recomputed from logged torch calls)",
                    corr_ok, detail, kind="correspondence")
 
     # ---- (2) numeric correspondence of the full model on small dimensions
